@@ -21,7 +21,7 @@ CLAIMED = {
  "C03": ("proof", "proved for an arbitrary 32-byte hash: generated existence proofs compute the root hash for every tree and key, are complete for present keys, and are sound modulo an explicit hash collision; an executable model of the ics23 verifier (ExistenceProof.Verify, NonExistenceProof.Verify, CheckAgainstSpec, validateIavlOps, IsLeftMost/IsRightMost/IsLeftNeighbor for IavlSpec) is proved sound for non-membership (an accepted non-existence proof against the root of an ordered tree shows an absent key, or a collision) and excludes the opposite claim; completeness is proved too (the existence proof of every stored pair and the non-existence proof built for every absent key are accepted by the verifier model, for ordered AVL trees within the prefix window with non-empty keys and values); the verifier model is compared with the real ics23 verifier on every proof the library produced, genuine and mutated (about 60000 verdicts per quick run); generated proof bytes and the real verifier's verdicts are compared on every history", "5.C03", T_PROOF),
  "C04": ("proof", "version-machine theorems (deletion removes exactly versions <= n, later versions and working state untouched, deleting the latest rejected) + orphans_exact (the two-cursor diff deletes exactly the nodes the next version does not use); the storage machine under small flush thresholds is tied by correspondence over prune-heavy histories incl. raw-store audit", "5.C04", T_PROOF),
  "C05": ("fault_enumeration", "exhaustive enumeration, on the implementation's own recorded write log, of every boundary between two physical writes of every mutating operation: reopen on the image, Load, all versions by tree walk and through the index, retry of the operation; judged against the states before/after. Lean contributes flush_split_same_result / cut_image (splitting a batch never changes the result; a cut image is a prefix image). Multi-batch operations are NOT atomic on the unchanged tree (K7, K7c recorded)", "5.C05", "crash-cut enumeration on the implementation + Lean lemma on batch splitting"),
- "C07": ("proof", "overlay-merge theorems (members and order of the index-plus-uncommitted iterator); index coherence across build / disable / re-enable / older-version loads / rollback is decided by correspondence: every indexed answer (Get, GetVersioned, iterators) against the model of the tree walk, and the raw f-entries + label against the latest version", "5.C07", T_PROOF),
+ "C07": ("proof", "overlay-merge theorems (members and order of the index-plus-uncommitted iterator) and index_overlay_coherent: after any history of sets, removals, commits and discards the index with its uncommitted additions/removals answers lookups like the working map, iterates the working contents and persists exactly the committed contents; index coherence across build / disable / re-enable / older-version loads / rollback is decided by correspondence: every indexed answer (Get, GetVersioned, iterators) against the model of the tree walk, and the raw f-entries + label against the latest version", "5.C07", T_PROOF),
  "C08": ("proof", "walk_eq_spec: the pruned tree walk yields exactly rangeSpec for all bounds, both directions, inclusive or not; overlay iterator = overlaid state; the three iterator implementations and the callback/stop variants are compared with the model on generated bounds", "5.C08", T_PROOF),
  "C09": ("proof", "version-machine theorems for Rollback, LoadVersionForOverwriting and DeleteVersionsFrom (exactly the versions above the target disappear, working state = target); equality of all later observations follows from determinism of the machine; tied by correspondence incl. fast index on/off and reopen", "5.C09", T_PROOF),
  "C10": ("proof", "importer modelled as a total state machine: proved that Add and the decompressor never reach a Go panic for any node on any stack, import(export t) = t for persisted AVL trees, delta codec lossless; export streams (plain/compressed), import of genuine and hostile streams (result class, visibility, later hashes) compared with the model; every failing batch write of an import of more than 10000 nodes is enumerated (no hang, no silent success)", "5.C10", T_PROOF),
